@@ -427,7 +427,7 @@ def _gen_file(rng, fmt):
             s = "-" + str(v)
         return s
     def flt():
-        return rng.choice(["1.5", "0.25", "10", "2e1", "3.5e0", "-2.25", "1e3", "0.5", "12.75", "7", "1.0e-1".replace("e-1", "e0")])
+        return rng.choice(["1.5", "0.25", "10", "2e1", "3.5e0", "-2.25", "1e3", "1.5e+03", "2e+1", "0.5", "12.75", "7", "1.0e-1".replace("e-1", "e0")])
     def seq(n=None):
         return "".join(rng.choice("ACGT") for _ in range(n if n is not None else rng.choice([1, 2, 5, 17, 60])))
     n = rng.randint(1, 25)
